@@ -91,9 +91,7 @@ Record eaddrT := { ea_dev : option N; ea_ent : option (list N) }.
 Record entdesc := { ed_addr : option eaddrT; ed_type : option N; ed_state : option estate }.
 Record featdesc := {
   fd_addr : option faddr; fd_type : option N; fd_role : option role;
-  fd_fns : list (bool * bool);            (* per supportedFunction: Function non-nil, PossibleOperations non-nil *)
-  fd_sig : N }.                           (* identifies the content the feature object is built from: type, role,
-                                             description, operations (hash kept by the harness) *)
+  fd_fns : list (bool * bool) }.          (* per supportedFunction: Function non-nil, PossibleOperations non-nil *)
 Record disc := {
   d_devinfo : option (option (option N));  (* DeviceInformation / .Description / .DeviceAddress.Device *)
   d_ents : list (option entdesc);          (* EntityInformation[i].Description *)
@@ -168,16 +166,10 @@ Definition DEV_EMPTY : N := 50.      (* the device address "" *)
 Definition LOCAL_DEV : N := 0.
 
 (* ------------------------------------------------------------------ state *)
-(* A remote feature is an OBJECT: AddSubscription compares feature objects with reflect.DeepEqual.
-   [rf_obj] = the inbound message that created it, [rf_sig] its content, [rf_dirty] = function data
-   has been stored in it; [re_gen] = the message that created the entity object. *)
-Record rfeat := { rf_id : N; rf_dev : option N; rf_type : N; rf_role : role; rf_obj : N; rf_sig : N; rf_dirty : bool }.
-Record rent := { re_addr : list N; re_dev : option N; re_feats : list rfeat; re_gen : N }.
+Record rfeat := { rf_id : N; rf_dev : option N; rf_type : N; rf_role : role }.
+Record rent := { re_addr : list N; re_dev : option N; re_feats : list rfeat }.
 Record peer := { p_ski : N; p_addr : option N; p_ents : list rent }.
-Record entry := { e_srv : list N * N; e_ski : N; e_cdev : option N; e_cent : list N; e_cfeat : N;
-                  (* the client feature OBJECT the entry holds: creating message, entity object, content,
-                     and whether it held data when the tree dropped it *)
-                  e_obj : N; e_egen : N; e_sig : N; e_dirty : bool }.
+Record entry := { e_srv : list N * N; e_ski : N; e_cdev : option N; e_cent : list N; e_cfeat : N }.
 
 Record lfeat := { lf_ent : list N; lf_id : N; lf_type : N; lf_role : role; lf_ops : list (N * (bool * bool)) }.
 
@@ -195,10 +187,9 @@ Record st := {
   peers : list peer;                 (* DeviceLocal.remoteDevices *)
   subs : list entry;                 (* SubscriptionManager.subscriptionEntries *)
   binds : list entry;                (* BindingManager.bindingEntries *)
-  lstore : list (option N);          (* keys of the items of [1]:1 loadControlLimitConstraintsListData *)
-  tick : N }.                        (* number of inbound payloads handled so far: names the objects they create *)
+  lstore : list (option N) }.        (* keys of the items of [1]:1 loadControlLimitConstraintsListData *)
 
-Definition init : st := {| peers := []; subs := []; binds := []; lstore := [Some 1%N; Some 2%N]; tick := 1 |}.
+Definition init : st := {| peers := []; subs := []; binds := []; lstore := [Some 1%N; Some 2%N] |}.
 
 (* ------------------------------------------------------------------ observations / operations *)
 Inductive out :=
@@ -278,16 +269,14 @@ Definition local_feature (a : faddr) : option lfeat :=
 
 Definition set_peer (s : st) (pe : peer) : st :=
   {| peers := map (fun x => if N.eqb (p_ski x) (p_ski pe) then pe else x) (peers s);
-     subs := subs s; binds := binds s; lstore := lstore s; tick := tick s |}.
+     subs := subs s; binds := binds s; lstore := lstore s |}.
 
 Definition set_subs (s : st) (l : list entry) : st :=
-  {| peers := peers s; subs := l; binds := binds s; lstore := lstore s; tick := tick s |}.
+  {| peers := peers s; subs := l; binds := binds s; lstore := lstore s |}.
 Definition set_binds (s : st) (l : list entry) : st :=
-  {| peers := peers s; subs := subs s; binds := l; lstore := lstore s; tick := tick s |}.
+  {| peers := peers s; subs := subs s; binds := l; lstore := lstore s |}.
 Definition set_store (s : st) (l : list (option N)) : st :=
-  {| peers := peers s; subs := subs s; binds := binds s; lstore := l; tick := tick s |}.
-Definition bump (s : st) : st :=
-  {| peers := peers s; subs := subs s; binds := binds s; lstore := lstore s; tick := N.succ (tick s) |}.
+  {| peers := peers s; subs := subs s; binds := binds s; lstore := l |}.
 
 (* ------------------------------------------------------------------ sending *)
 (* Sender.Reply / Sender.result -> sendSpineMessage -> PrintMessageOverview(send = true):
@@ -429,15 +418,7 @@ Definition same_cli (x : entry) (dev : option N) (ent : list N) (feat : N) : boo
   eqb_on (e_cdev x) dev && eqb_ln (e_cent x) ent && N.eqb (e_cfeat x) feat.
 
 Definition mk_entry (lf : lfeat) (pe : peer) (en : rent) (rf : rfeat) : entry :=
-  {| e_srv := (lf_ent lf, lf_id lf); e_ski := p_ski pe; e_cdev := rf_dev rf; e_cent := re_addr en; e_cfeat := rf_id rf;
-     e_obj := rf_obj rf; e_egen := re_gen en; e_sig := rf_sig rf; e_dirty := false |}.
-
-(* reflect.DeepEqual(item.ClientFeature, clientFeature) for an entry with the same client address:
-   the same object, or an older object of the same entity object with the same content, neither
-   holding function data (two objects that both hold data are taken to differ) *)
-Definition same_object (x : entry) (en : rent) (rf : rfeat) : bool :=
-  N.eqb (e_egen x) (re_gen en) &&
-  (N.eqb (e_obj x) (rf_obj rf) || (N.eqb (e_sig x) (rf_sig rf) && negb (e_dirty x) && negb (rf_dirty rf))).
+  {| e_srv := (lf_ent lf, lf_id lf); e_ski := p_ski pe; e_cdev := rf_dev rf; e_cent := re_addr en; e_cfeat := rf_id rf |}.
 
 (* the error text of the unrepaired code dereferences remoteDevice.Address() *)
 Definition no_client (fx : bool) (site : N) (pe : peer) (s : st) : res (st * bool) :=
@@ -474,8 +455,9 @@ Definition add_subscription (fx : bool) (s : st) (pe : peer) (r : regreq) : res 
           | None => no_client fx S_ADDSUB pe s
           | Some (en, rf) =>
               if negb (role_type_ok (rf_role rf) (rf_type rf) RClient t) then Ok (s, true) else
+              (* an existing subscription is found by server feature, connection and client ADDRESS *)
               if existsb (fun x => same_srv x lf && N.eqb (e_ski x) (p_ski pe) &&
-                                   same_cli x (rf_dev rf) (re_addr en) (rf_id rf) && same_object x en rf) (subs s)
+                                   same_cli x (rf_dev rf) (re_addr en) (rf_id rf)) (subs s)
               then Ok (s, true)
               else Ok (set_subs s (subs s ++ [mk_entry lf pe en rf]), false)
           end
@@ -560,7 +542,7 @@ Definition drop_entity_entries (s : st) (p : N) (e : list N) : st :=
   {| peers := peers s;
      subs := filter (fun x => negb (entity_match p e x)) (subs s);
      binds := filter (fun x => negb (entity_match p e x)) (binds s);
-     lstore := lstore s; tick := tick s |}.
+     lstore := lstore s |}.
 
 (* ------------------------------------------------------------------ detailed discovery *)
 Definition is_empty_dev (d : option N) : bool :=
@@ -570,7 +552,7 @@ Definition disc_dev (d : disc) : option N :=
   match d_devinfo d with Some (Some a) => a | _ => None end.
 
 (* unmarshalFeature + NewFeatureRemote + SetOperations for one feature entry of the entity *)
-Definition make_feature (fx : bool) (dev : option N) (t0 : N) (fd : featdesc) : res (option rfeat) :=
+Definition make_feature (fx : bool) (dev : option N) (fd : featdesc) : res (option rfeat) :=
   match fd_addr fd with
   | None => Ok None      (* unreachable: the caller has looked at FeatureAddress.Entity *)
   | Some a =>
@@ -578,29 +560,29 @@ Definition make_feature (fx : bool) (dev : option N) (t0 : N) (fd : featdesc) : 
       | Some id, Some t, Some r =>
           _ <- (if N.eqb t 0 then guard fx S_FACTORY (Ok tt) else Ok tt) ;;
           _ <- (if existsb (fun fo => negb (fst fo) && snd fo) (fd_fns fd) then guard fx S_SETOPS (Ok tt) else Ok tt) ;;
-          Ok (Some {| rf_id := id; rf_dev := dev; rf_type := t; rf_role := r; rf_obj := t0; rf_sig := fd_sig fd; rf_dirty := false |})
+          Ok (Some {| rf_id := id; rf_dev := dev; rf_type := t; rf_role := r |})
       | _, _, _ => guard fx S_UNMARSHAL (Ok None)
       end
   end.
 
-Fixpoint make_features (fx : bool) (dev : option N) (t0 : N) (e : list N) (l : list (option featdesc)) : res (list rfeat) :=
+Fixpoint make_features (fx : bool) (dev : option N) (e : list N) (l : list (option featdesc)) : res (list rfeat) :=
   match l with
   | [] => Ok []
-  | None :: r => guard fx S_ADDENT (make_features fx dev t0 e r)
+  | None :: r => guard fx S_ADDENT (make_features fx dev e r)
   | Some fd :: r =>
       match fd_addr fd with
-      | None => guard fx S_ADDENT (make_features fx dev t0 e r)
+      | None => guard fx S_ADDENT (make_features fx dev e r)
       | Some a =>
           if ent_is (fa_ent a) e then
-            f <- make_feature fx dev t0 fd ;;
-            fs <- make_features fx dev t0 e r ;;
+            f <- make_feature fx dev fd ;;
+            fs <- make_features fx dev e r ;;
             Ok (match f with Some f => f :: fs | None => fs end)
-          else make_features fx dev t0 e r
+          else make_features fx dev e r
       end
   end.
 
-Definition nm_feature (dev : option N) (t0 : N) : rfeat :=
-  {| rf_id := 0; rf_dev := dev; rf_type := T_NODEMGMT; rf_role := RSpecial; rf_obj := t0; rf_sig := 0; rf_dirty := false |}.
+Definition nm_feature (dev : option N) : rfeat :=
+  {| rf_id := 0; rf_dev := dev; rf_type := T_NODEMGMT; rf_role := RSpecial |}.
 
 (* DeviceRemote.CheckEntityInformation: Some e = the entity address, None = error *)
 Definition check_entity (fx initial : bool) (pe : peer) (ed : option entdesc) : option (entdesc * eaddrT * list N) :=
@@ -625,7 +607,7 @@ Definition check_entity (fx initial : bool) (pe : peer) (ed : option entdesc) : 
   end.
 
 (* DeviceRemote.AddEntityAndFeatures: new peer, error *)
-Fixpoint add_entities (fx initial : bool) (t0 : N) (pe : peer) (d : disc) (l : list (option entdesc)) : res (peer * bool) :=
+Fixpoint add_entities (fx initial : bool) (pe : peer) (d : disc) (l : list (option entdesc)) : res (peer * bool) :=
   match l with
   | [] => Ok (pe, false)
   | ei :: r =>
@@ -640,7 +622,7 @@ Fixpoint add_entities (fx initial : bool) (t0 : N) (pe : peer) (d : disc) (l : l
                        | Some _ =>
                            match e with
                            | [] => Panic S_NEWENTITY       (* only the unrepaired check lets an empty address through *)
-                           | _ => Ok (Some ({| re_addr := e; re_dev := p_addr pe; re_feats := []; re_gen := t0 |}, true))
+                           | _ => Ok (Some ({| re_addr := e; re_dev := p_addr pe; re_feats := [] |}, true))
                            end
                        end
                    end ;;
@@ -650,51 +632,16 @@ Fixpoint add_entities (fx initial : bool) (t0 : N) (pe : peer) (d : disc) (l : l
               let dev := if is_empty_dev (re_dev en)
                          then match disc_dev d with Some a => Some a | None => re_dev en end
                          else re_dev en in
-              fs <- make_features fx dev t0 e (d_feats d) ;;
+              fs <- make_features fx dev e (d_feats d) ;;
               let fs1 := if fx && eqb_ln e [0%N] && negb (existsb (fun f => N.eqb (rf_id f) 0) fs)
-                         then fs ++ [nm_feature dev t0] else fs in
-              let en1 := {| re_addr := e; re_dev := dev; re_feats := fs1; re_gen := re_gen en |} in
+                         then fs ++ [nm_feature dev] else fs in
+              let en1 := {| re_addr := e; re_dev := dev; re_feats := fs1 |} in
               let ents := if created then p_ents pe ++ [en1]
                           else map (fun x => if eqb_ln (re_addr x) e then en1 else x) (p_ents pe) in
-              add_entities fx initial t0 {| p_ski := p_ski pe; p_addr := p_addr pe; p_ents := ents |} d r
+              add_entities fx initial {| p_ski := p_ski pe; p_addr := p_addr pe; p_ents := ents |} d r
           end
       end
   end.
-
-(* the feature object at an address of a peer's tree *)
-Definition object_at (pe : peer) (e : list N) (f : N) : option rfeat :=
-  match find (fun x => eqb_ln (re_addr x) e) (p_ents pe) with
-  | Some en => find (fun x => N.eqb (rf_id x) f) (re_feats en)
-  | None => None
-  end.
-
-(* after AddEntityAndFeatures replaced feature objects: an entry that held the object the tree had
-   at its address keeps that (now unreachable) object; remember whether it held data *)
-Definition sync_entry (p : N) (old new : peer) (x : entry) : entry :=
-  if negb (N.eqb (e_ski x) p) then x else
-  match object_at old (e_cent x) (e_cfeat x) with
-  | Some o =>
-      if N.eqb (rf_obj o) (e_obj x) &&
-         negb (match object_at new (e_cent x) (e_cfeat x) with Some n => N.eqb (rf_obj n) (e_obj x) | None => false end)
-      then {| e_srv := e_srv x; e_ski := e_ski x; e_cdev := e_cdev x; e_cent := e_cent x; e_cfeat := e_cfeat x;
-              e_obj := e_obj x; e_egen := e_egen x; e_sig := e_sig x; e_dirty := rf_dirty o |}
-      else x
-  | None => x
-  end.
-
-Definition sync_entries (s : st) (old new : peer) : st :=
-  set_subs s (map (sync_entry (p_ski old) old new) (subs s)).
-
-(* function data stored in a remote feature object *)
-Definition mark_dirty (s : st) (pe : peer) (en : rent) (rf : rfeat) : st :=
-  let dirty f := if N.eqb (rf_id f) (rf_id rf)
-                 then {| rf_id := rf_id f; rf_dev := rf_dev f; rf_type := rf_type f; rf_role := rf_role f;
-                         rf_obj := rf_obj f; rf_sig := rf_sig f; rf_dirty := true |} else f in
-  let pe1 := {| p_ski := p_ski pe; p_addr := p_addr pe;
-                p_ents := map (fun x => if eqb_ln (re_addr x) (re_addr en)
-                                        then {| re_addr := re_addr x; re_dev := re_dev x; re_feats := map dirty (re_feats x); re_gen := re_gen x |}
-                                        else x) (p_ents pe) |} in
-  set_peer s pe1.
 
 (* NodeManagement.removeRemoteEntity *)
 Definition remove_entity (s : st) (p : N) (e : list N) : st :=
@@ -725,8 +672,8 @@ Definition reply_discovery (fx : bool) (s : st) (pe : peer) (d : disc) : res (st
   | Some (Some da) =>
       let pe0 := {| p_ski := p_ski pe; p_addr := match da with Some a => Some a | None => p_addr pe end;
                     p_ents := p_ents pe |} in
-      '(pe1, err) <- add_entities fx true (tick s) pe0 d (d_ents d) ;;
-      let s1 := sync_entries (set_peer s pe1) pe pe1 in
+      '(pe1, err) <- add_entities fx true pe0 d (d_ents d) ;;
+      let s1 := set_peer s pe1 in
       if err then Ok (s1, true) else
       let gone := filter (fun e => negb (existsb (eqb_ln e) (listed d)) && negb (fx && eqb_ln e [0%N]))
                          (map re_addr (p_ents pe1)) in
@@ -785,8 +732,8 @@ Fixpoint notify_entries (fx : bool) (s : st) (p : N) (d : disc) (l : list (optio
               match find_peer s p with
               | None => Ok (s, true)
               | Some pe =>
-                  '(pe1, err) <- add_entities fx false (tick s) pe d [ei] ;;
-                  let s1 := sync_entries (set_peer s pe1) pe pe1 in
+                  '(pe1, err) <- add_entities fx false pe d [ei] ;;
+                  let s1 := set_peer s pe1 in
                   if err then Ok (s1, true) else notify_entries fx s1 p d r
               end
           | Some _, Some ERemoved =>
@@ -828,7 +775,7 @@ Definition reg_outcome (s : st) (r : res (st * bool)) : res hres :=
   '(s1, err) <- r ;; ret s1 [] (if err then Some E_GENERAL else None).
 
 (* NodeManagement.HandleMessage *)
-Definition nm_handle (fx : bool) (s : st) (pe : peer) (en : rent) (rf : rfeat) (h : header) (k : cls) (c : cmd) (fp : option filt)
+Definition nm_handle (fx : bool) (s : st) (pe : peer) (rf : rfeat) (h : header) (k : cls) (c : cmd) (fp : option filt)
   : res hres :=
   let p := p_ski pe in
   match c_result c with
@@ -897,9 +844,7 @@ Definition nm_handle (fx : bool) (s : st) (pe : peer) (en : rent) (rf : rfeat) (
   else if c_usecase c then
       match k with
       | CRead => o <- send_reply fx p F_USECASE h ;; ret s o None
-      | CReply | CNotify =>
-          (* featureRemote.UpdateData(true, useCaseData, data, nil, nil), error ignored *)
-          ret (if registered (rf_type rf) F_USECASE then mark_dirty s pe en rf else s) [] None
+      | CReply | CNotify => ret s [] None
       | _ => ret s [] (Some E_GENERAL)
       end
   else if c_destlist c then
@@ -938,7 +883,7 @@ Definition process_write (fx : bool) (s : st) (p : N) (lf : lfeat) (h : header) 
   end.
 
 (* FeatureLocal.HandleMessage *)
-Definition feature_handle (fx : bool) (s : st) (pe : peer) (en : rent) (rf : rfeat) (lf : lfeat) (h : header) (k : cls) (c : cmd)
+Definition feature_handle (fx : bool) (s : st) (pe : peer) (rf : rfeat) (lf : lfeat) (h : header) (k : cls) (c : cmd)
   (fp fd : option filt) : res hres :=
   let p := p_ski pe in
   match c_data c with
@@ -951,8 +896,7 @@ Definition feature_handle (fx : bool) (s : st) (pe : peer) (en : rent) (rf : rfe
           if negb (registered (lf_type lf) fn) then ret s [] (Some E_GENERAL) else
           o <- send_reply fx p fn h ;; ret s o None
       | CReply | CNotify =>
-          e <- update_remote fx (rf_type rf) fn fp fd (c_nitems c) ;;
-          ret (match e with None => mark_dirty s pe en rf | Some _ => s end) [] e
+          e <- update_remote fx (rf_type rf) fn fp fd (c_nitems c) ;; ret s [] e
       | CWrite => process_write fx s p lf h c fn fp fd
       | _ => ret s [] (Some E_GENERAL)
       end
@@ -1013,8 +957,8 @@ Definition process_cmd (fx : bool) (s : st) (pe : peer) (d : dgram) : res (st * 
                       | Some o => Ok (s, o)
                       | None =>
                           '(s1, o, err) <- (if N.eqb (lf_type lf) T_NODEMGMT
-                                            then nm_handle fx s pe en rf h k c fp
-                                            else feature_handle fx s pe en rf lf h k c fp fd) ;;
+                                            then nm_handle fx s pe rf h k c fp
+                                            else feature_handle fx s pe rf lf h k c fp fd) ;;
                           match err with
                           | Some e =>
                               if is_cls k CResult then Ok (s1, o)
@@ -1059,12 +1003,12 @@ Definition disconnect (s : st) (p : N) : st :=
   | Some pe =>
       let s1 := fold_left (fun acc en => drop_entity_entries acc p (re_addr en)) (p_ents pe) s in
       {| peers := filter (fun x => negb (N.eqb (p_ski x) p)) (peers s1);
-         subs := subs s1; binds := binds s1; lstore := lstore s1; tick := tick s1 |}
+         subs := subs s1; binds := binds s1; lstore := lstore s1 |}
   end.
 
 Definition new_peer (p : N) : peer :=
   {| p_ski := p; p_addr := None;
-     p_ents := [ {| re_addr := [0%N]; re_dev := None; re_feats := [nm_feature None 0]; re_gen := 0 |} ] |}.
+     p_ents := [ {| re_addr := [0%N]; re_dev := None; re_feats := [nm_feature None] |} ] |}.
 
 (* one operation; a panic leaves the state as it was (the process would be gone) *)
 Definition step_res (fx : bool) (s : st) (o : op) : res (st * list out) :=
@@ -1072,14 +1016,14 @@ Definition step_res (fx : bool) (s : st) (o : op) : res (st * list out) :=
   | Connect p =>
       match find_peer s p with
       | Some _ => Ok (s, [])
-      | None => Ok ({| peers := peers s ++ [new_peer p]; subs := subs s; binds := binds s; lstore := lstore s; tick := tick s |}, [])
+      | None => Ok ({| peers := peers s ++ [new_peer p]; subs := subs s; binds := binds s; lstore := lstore s |}, [])
       end
   | Disconnect p => Ok (disconnect s p, [])
-  | Inbound p None => Ok (bump s, [])
+  | Inbound p None => Ok (s, [])
   | Inbound p (Some d) =>
       match find_peer s p with
-      | None => Ok (bump s, [])
-      | Some pe => '(s1, o) <- process_cmd fx s pe d ;; Ok (bump s1, o)
+      | None => Ok (s, [])
+      | Some pe => process_cmd fx s pe d
       end
   | Probe p c =>
       match find_peer s p with
